@@ -137,6 +137,11 @@ func (f *File) WriteAt(p []byte, off int64) (n int, err error) {
 		return 0, ErrEvicted
 	}
 
+	if len(p) == 0 {
+		// Like a file, an empty write never extends the blob.
+		return 0, nil
+	}
+
 	end := int(off) + len(p)
 	buf, resized := resizeSliceIfNecessary(buf, end)
 	n = copy(buf[off:], p)
